@@ -121,9 +121,20 @@ pub fn gen_dir_name(rng: &mut Rng) -> String {
     "d".to_string()
 }
 
+/// The analysed root: usually /w/c, sometimes below (or itself) a directory with a name that
+/// tools like to treat specially.
+pub fn gen_root(rng: &mut Rng) -> &'static str {
+    if rng.chance(3, 4) {
+        return "/w/c";
+    }
+    *rng.pick(&["/w/lib/c", "/w/.cache/c", "/w/node_modules/pkg", "/w/test/c", "/w/c.sol", "/w/Mocks/c", "/w/.c", "/w/out/stdlib"])
+}
+
 pub const DIR_NAMES: &[&str] = &[
     "sub", "lib", "deep", "a b", "lib.sol", "test.t.sol", "z", "0", "\u{e9}t\u{e9}", ".git", ".hidden",
     "node_modules", "test", "tests", "mocks", "Mocks", "out", "cache", "Contracts", "contracts", "SRC", "src", "Lib", "LIB",
+    // near misses of names that tools like to treat specially
+    "stdlib", "mathlib", "libs", "lib2", "_lib", "old_node_modules", "node_modules2", "mytest", "testing", ".github", "..x", "script", "vendor", "build",
 ];
 
 #[derive(Clone, Copy, Debug, PartialEq, Eq, Hash, PartialOrd, Ord)]
